@@ -14,17 +14,17 @@ import (
 )
 
 type goCompiler struct {
-	v        *Verifier
-	fn       *ssa.Function
-	params   map[string]string // spec param name -> Go expression
-	results  []string
-	olds     []string // Go statements saving old() values before the call
-	nOld     int
-	defs     map[string]bool
-	defSrc   []string
-	bound    map[string]bool
-	inOld    bool
-	err      error
+	v       *Verifier
+	fn      *ssa.Function
+	params  map[string]string // spec param name -> Go expression
+	results []string
+	olds    []string // Go statements saving old() values before the call
+	nOld    int
+	defs    map[string]bool
+	defSrc  []string
+	bound   map[string]bool
+	inOld   bool
+	err     error
 }
 
 func (g *goCompiler) fail(format string, a ...any) string {
@@ -300,3 +300,8 @@ func verifAbs(a int) int { if a < 0 { return -a }; return a }
 func verifMod(a, b int) int { if b == 0 { return 0 }; m := a % b; if m < 0 { if b > 0 { m += b } else { m -= b } }; return m }
 func verifDiv(a, b int) int { if b == 0 { return 0 }; return (a - verifMod(a, b)) / b }
 `
+
+// exprGlobal compiles a closed expression over package-level names (tables are indexed directly).
+func (g *goCompiler) exprGlobal(e ast.Expr) string {
+	return g.expr(e)
+}
